@@ -142,7 +142,7 @@ GH = 'yalafi/shell/genhtml.py'
 V('th1-drop-escape-gap', ['C16'], GH,
   "res += protect_html(tex[last:h.beg])", "res += tex[last:h.beg]", 'TH1')
 V('th1-drop-escape-msg', ['C16'], GH,
-  "msg = protect_html(json_get(m, 'message', str)) + '\\n'",
+  "msg = protect_attr(json_get(m, 'message', str)) + '\\n'",
   "msg = json_get(m, 'message', str) + '\\n'", 'TH1')
 V('th1-double-escape', ['C16'], GH,
   "    s = protect_html(s)\n    post = end_href + end_match()",
